@@ -58,7 +58,25 @@ func checkFloat(bits uint64, state int) *core.Failure {
 var jsonBadBits uint64
 
 func checkFloatJSON(vals []float64) *core.Failure {
-	q := qframe.New(map[string]interface{}{"f": vals})
+	if f := checkFloatJSONOn(qframe.New(map[string]interface{}{"f": vals}), vals, "a fresh frame"); f != nil {
+		return f
+	}
+	// the same rows through a frame whose index is neither the identity nor dense: stored in reverse order
+	// behind a junk row, restored by Filter and Sort
+	n := len(vals)
+	rev, ids := make([]float64, n+1), make([]int, n+1)
+	rev[0], ids[0] = 123.456, -1
+	for i, v := range vals {
+		rev[n-i], ids[n-i] = v, i
+	}
+	d := qframe.New(map[string]interface{}{"f": rev, "id": ids}).Filter(qframe.Filter{Column: "id", Comparator: ">=", Arg: 0}).Sort(qframe.Order{Column: "id"}).Select("f")
+	return checkFloatJSONOn(d, vals, "a filtered and sorted frame")
+}
+
+func checkFloatJSONOn(q qframe.QFrame, vals []float64, what string) *core.Failure {
+	if q.Err != nil {
+		return core.Failf("could not build %s: %v", what, q.Err)
+	}
 	var buf bytes.Buffer
 	if err := q.ToJSON(&buf); err != nil {
 		return core.Failf("ToJSON: %v", err)
@@ -84,10 +102,10 @@ func checkFloatJSON(vals []float64) *core.Failure {
 					gi = g[i]
 				}
 				jsonBadBits = math.Float64bits(vals[i])
-				return core.Failf("ToJSON float text differs at row %d (%#x = %g): got %q want %q", i, math.Float64bits(vals[i]), vals[i], gi, w[i])
+				return core.Failf("ToJSON of %s: float text differs at row %d (%#x = %g): got %q want %q", what, i, math.Float64bits(vals[i]), vals[i], gi, w[i])
 			}
 		}
-		return core.Failf("ToJSON float output differs")
+		return core.Failf("ToJSON of %s: float output differs", what)
 	}
 	return nil
 }
